@@ -5,8 +5,10 @@ package harness
 import (
 	"context"
 	"fmt"
+	"io"
 	"net/http"
 	"os"
+	"strings"
 	"time"
 
 	"github.com/pingcap/log"
@@ -24,13 +26,14 @@ import (
 
 // World is everything a run owns.
 type World struct {
-	Sim     *simrt.Sim
-	Etcd    *simetcd.Cluster
-	Net     *simnet.Net
-	Nodes   []*Node
-	RootCtx context.Context
-	Cancel  context.CancelFunc
-	HTTP    http.RoundTripper
+	Sim        *simrt.Sim
+	Etcd       *simetcd.Cluster
+	Net        *simnet.Net
+	Nodes      []*Node
+	RootCtx    context.Context
+	Cancel     context.CancelFunc
+	HTTP       http.RoundTripper
+	HTTPFaults HTTPFaults
 }
 
 // Node is one PD member slot.
@@ -65,6 +68,8 @@ func init() {
 func NewWorld(s *simrt.Sim, n int) *World {
 	ctx, cancel := context.WithCancel(context.Background())
 	w := &World{Sim: s, RootCtx: ctx, Cancel: cancel}
+	w.HTTP = &simTransport{w: w}
+	w.HTTPFaults.Unreachable = map[int]bool{}
 	simdisk.Reset()
 	w.Etcd = simetcd.New(s)
 	w.Net = simnet.New(s)
@@ -174,4 +179,58 @@ func (w *World) Leader() *Node {
 		}
 	}
 	return nil
+}
+
+// simTransport is the simulated HTTP transport between members (health checks,
+// persist-file replication). It never touches the real network.
+type simTransport struct {
+	w *World
+	// FailPersist: fault: persist-file requests to these nodes fail
+}
+
+// HTTPFaults configures the simulated HTTP transport.
+type HTTPFaults struct {
+	PFail       float64
+	Unreachable map[int]bool
+}
+
+func (t *simTransport) RoundTrip(req *http.Request) (*http.Response, error) {
+	w := t.w
+	simrt.Yield("http " + req.URL.Path)
+	if err := req.Context().Err(); err != nil {
+		return nil, err
+	}
+	host := req.URL.Host
+	var target *Node
+	for _, n := range w.Nodes {
+		if strings.HasPrefix(n.ClientURL, "http://"+host) {
+			target = n
+		}
+	}
+	mk := func(code int, body string) *http.Response {
+		return &http.Response{StatusCode: code, Status: http.StatusText(code), Body: io.NopCloser(strings.NewReader(body)), Header: http.Header{}, Request: req, ProtoMajor: 1, ProtoMinor: 1}
+	}
+	if target == nil || !target.Up || w.HTTPFaults.Unreachable[target.ID] {
+		w.Sim.Count("http.unreachable")
+		return nil, fmt.Errorf("simhttp: connect to %s: connection refused", host)
+	}
+	if w.HTTPFaults.PFail > 0 && w.Sim.Chance("http.fail", w.HTTPFaults.PFail) {
+		w.Sim.Count("fault.http.fail")
+		return nil, fmt.Errorf("simhttp: injected: connection reset")
+	}
+	p := req.URL.Path
+	switch {
+	case strings.HasSuffix(p, "/health"):
+		return mk(200, "[]"), nil
+	case strings.Contains(p, "/admin/persist-file/"):
+		name := p[strings.LastIndex(p, "/")+1:]
+		var data []byte
+		if req.Body != nil {
+			data, _ = io.ReadAll(req.Body)
+		}
+		simdisk.WriteFile(target.ID, name, data)
+		w.Sim.Count("http.persist-file")
+		return mk(200, ""), nil
+	}
+	return mk(404, ""), nil
 }
